@@ -8,6 +8,11 @@
   object layers; any number of layers of either kind that the rule does not mention):
   the model of `LayerRule(...).assert_applies` returns pass exactly when `layerVerdict a ls r` holds and fail
   (AssertionError) exactly when it does not; in particular it never raises `LayerMismatch` or any other error.
+
+  Outside that domain, since the repair of `LayerRuleMatcher._update_layer_mapping`: if the layer mapping the rule uses
+  (regexes of the rule resolved) assigns one module identifier to two layers with different names, the rule raises
+  `LayerMismatch` and never returns a verdict (`overlapping_layers_*`); on `layerDomain` that check passes
+  (`layer_map_consistent`).
 -/
 import Bridge.Abs
 import Bridge.LayerAbs
@@ -105,6 +110,71 @@ theorem layer_report_sound_names (mt : Str → Str → Bool) (a : Arch) (g : PGr
       ∃ e ∈ a.imports, u = render e.1 ∧ v = render e.2 ∧ tu = layerTag ls e.1 ∧ tv = layerTag ls e.2 ∧ tu ≠ tv :=
   Pta.layer_report_sound_names_lemma mt a g hg hwf ls r hdom hany items h
 
+/-! ### a module assigned to two layers -/
+
+/-- on the domain of `layer_verdict` the check of the repaired `_update_layer_mapping` passes: listed modules are
+    pairwise unrelated, in particular pairwise distinct -/
+theorem layer_map_consistent (mt : Str → Str → Bool) (a : Arch) (g : PGraph Str) (hg : GraphOf a g)
+    (hwf : a.wf = true) (ls : Layers) (r : LRuleSpec) (hdom : layerDomain a ls r = true)
+    (hany : r.anything = true → r.verb = .shouldNot)
+    (larch : LArch) (hres : resolves mt g.nodes larch ls = true) :
+    (ruleLayerMap mt g larch r).consistent = true := by
+  obtain ⟨_, _, _, c, _⟩ := Pta.layer_reduce mt a g hg hwf ls r hdom hany larch hres
+  exact c.cons
+
+/-- what the check says: it fails exactly when some identifier is listed by two entries with different layer names
+    (listing an identifier twice in the SAME layer is not an error) -/
+theorem consistent_false_iff (m : LayerMap) :
+    m.consistent = false ↔ ∃ l1 ∈ m, ∃ l2 ∈ m, ∃ id, id ∈ l1.2 ∧ id ∈ l2.2 ∧ l1.1 ≠ l2.1 :=
+  Pta.consistent_false_iff m
+
+/-- the matcher: if after resolution (`ruleMap` = `_update_layer_mapping`: the regexes occurring in the rule expanded
+    over the modules of the graph) some module identifier belongs to two different layers, and regex conversion and
+    graph queries succeed, the rule raises `LayerMismatch` — whatever the detector would have said -/
+theorem overlapping_layers_rejected (mt : Str → Str → Bool) (g : PGraph Str) (larch : LArch) (b : Behavior) (d : Bool)
+    (subjects objects subs objs : List Filter) (q : Option ExplDeps × Option OtherDeps)
+    (h1 : convertFilters mt g.nodes subjects = .ok subs) (h2 : convertFilters mt g.nodes objects = .ok objs)
+    (h3 : runQueries g b d subs objs = .ok q)
+    (l1 l2 : Str × List Str) (hl1 : l1 ∈ ruleMap mt g larch subjects objects) (hl2 : l2 ∈ ruleMap mt g larch subjects objects)
+    (id : Str) (hid1 : id ∈ l1.2) (hid2 : id ∈ l2.2) (hne : l1.1 ≠ l2.1) :
+    matchLayerRule mt g larch b d subjects objects = .err .layerMismatch :=
+  Pta.matchLayerRule_inconsistent mt g larch b d subjects objects subs objs q h1 h2 h3
+    ((Pta.consistent_false_iff _).2 ⟨l1, hl1, l2, hl2, id, hid1, hid2, hne⟩)
+
+/-- … and never a verdict: `assert_applies` of ANY layer rule object (finished or not, in the domain of C05 or not) whose
+    layer mapping has such an identifier raises — `LayerMismatch`, or an error that comes earlier (configuration, regex
+    conversion, graph queries) -/
+theorem overlapping_layers_never_verdict (mt : Str → Str → Bool) (g : PGraph Str) (larch : LArch) (rule : RuleState)
+    (l1 l2 : Str × List Str) (hl1 : l1 ∈ stateLayerMap mt g larch rule) (hl2 : l2 ∈ stateLayerMap mt g larch rule)
+    (id : Str) (hid1 : id ∈ l1.2) (hid2 : id ∈ l2.2) (hne : l1.1 ≠ l2.1) :
+    ∃ k, assertAppliesLayer mt ⟨some larch, some rule⟩ g = .err k :=
+  Pta.assertAppliesLayer_err_of_inconsistent mt g larch rule
+    ((Pta.consistent_false_iff _).2 ⟨l1, hl1, l2, hl2, id, hid1, hid2, hne⟩)
+
+/-- conversely a verdict (pass or fail) is only ever returned on a mapping that passes the check -/
+theorem verdict_only_if_consistent (mt : Str → Str → Bool) (g : PGraph Str) (larch : LArch) (b : Behavior) (d : Bool)
+    (subjects objects : List Filter)
+    (h : matchLayerRule mt g larch b d subjects objects = .pass ∨
+      ∃ items, matchLayerRule mt g larch b d subjects objects = .fail items) :
+    (ruleMap mt g larch subjects objects).consistent = true :=
+  Pta.matchLayerRule_verdict_consistent mt g larch b d subjects objects h
+
+/-- the same for the LayerRule object of a specification rule (`ruleLayerMap` is the mapping of `layer_report_sound`) -/
+theorem overlapping_layers_rejected_rule (mt : Str → Str → Bool) (g : PGraph Str) (larch : LArch) (r : LRuleSpec)
+    (hs : larch.getD r.subject ≠ []) (ho : r.anything = true ∨ r.objects.flatMap larch.getD ≠ [])
+    (hany : r.anything = true → r.verb = .shouldNot)
+    (hdd : r.anything = true → dedupSubjects (larch.getD r.subject) = larch.getD r.subject)
+    (subs objs : List Filter) (q : Option ExplDeps × Option OtherDeps)
+    (h1 : convertFilters mt g.nodes (larch.getD r.subject) = .ok subs)
+    (h2 : convertFilters mt g.nodes
+      (if r.anything = true then larch.getD r.subject else r.objects.flatMap larch.getD) = .ok objs)
+    (h3 : runQueries g (behL r) r.importDir subs objs = .ok q)
+    (l1 l2 : Str × List Str) (hl1 : l1 ∈ ruleLayerMap mt g larch r) (hl2 : l2 ∈ ruleLayerMap mt g larch r)
+    (id : Str) (hid1 : id ∈ l1.2) (hid2 : id ∈ l2.2) (hne : l1.1 ≠ l2.1) :
+    assertAppliesLayer mt (compileLayerRule larch r) g = .err .layerMismatch :=
+  Pta.overlapping_layers_rejected_lemma mt g larch r hs ho hany hdd subs objs q h1 h2 h3
+    ((Pta.consistent_false_iff _).2 ⟨l1, hl1, l2, hl2, id, hid1, hid2, hne⟩)
+
 /-- why `hany` is a hypothesis: the `any layer` aliases exist only for `should_not`
     (`_assert_anything_only_used_with_should_not`); with another verb `assert_applies` raises ImproperlyConfigured -/
 theorem any_layer_misused (mt : Str → Str → Bool) (g : PGraph Str) (larch : LArch) (r : LRuleSpec)
@@ -165,5 +235,39 @@ example : (assertAppliesLayer exMt (compileLayerRule exLarch exR') (archGraph ex
     layerVerdict exA exLsR exR' = false := by decide
 set_option maxRecDepth 8000 in
 example : (runLayerRuleOps exMt (layerRuleOps exLarch exR true) (archGraph exA)).1.cls = .pass := by decide
+
+/-! non-vacuity of `overlapping_layers_*`: module `x` is listed in layer A and matched by the regex of layer B (the
+    builder accepts this definition); "A should not access B" -/
+namespace Ov
+def g : PGraph Str := buildGraph ["x".toList, "y".toList] [absImport "x".toList "y".toList] none
+/-- a regex engine for the example: the pattern "x|y" matches x and y, every other pattern matches itself only -/
+def mt : Str → Str → Bool := fun r m => if r == "x|y".toList then (m == "x".toList || m == "y".toList) else r == m
+def larch : LArch := [("A".toList, [.name "x".toList]), ("B".toList, [.regex "x|y".toList])]
+def r : LRuleSpec := { verb := .shouldNot, importDir := true, exc := false, subject := "A".toList, objects := ["B".toList] }
+def subs : List Filter := [.name "x".toList]
+def objs : List Filter := [.name "x".toList, .name "y".toList]
+def lA : Str × List Str := ("A".toList, ["x".toList])
+def lB : Str × List Str := ("B".toList, ["x".toList, "y".toList])
+end Ov
+example : runLArch [.layer "A".toList, .containingModules ["x".toList], .layer "B".toList, .matching "x|y".toList] = .ok Ov.larch := by
+  rfl
+set_option maxRecDepth 8000 in
+example : Ov.larch.getD Ov.r.subject ≠ [] ∧ (Ov.r.anything = true ∨ Ov.r.objects.flatMap Ov.larch.getD ≠ []) ∧
+    (Ov.r.anything = true → Ov.r.verb = .shouldNot) ∧
+    (Ov.r.anything = true → dedupSubjects (Ov.larch.getD Ov.r.subject) = Ov.larch.getD Ov.r.subject) ∧
+    convertFilters Ov.mt Ov.g.nodes (Ov.larch.getD Ov.r.subject) = .ok Ov.subs ∧
+    convertFilters Ov.mt Ov.g.nodes
+      (if Ov.r.anything = true then Ov.larch.getD Ov.r.subject else Ov.r.objects.flatMap Ov.larch.getD) = .ok Ov.objs ∧
+    (∃ q, runQueries Ov.g (behL Ov.r) Ov.r.importDir Ov.subs Ov.objs = .ok q) ∧
+    Ov.lA ∈ ruleLayerMap Ov.mt Ov.g Ov.larch Ov.r ∧ Ov.lB ∈ ruleLayerMap Ov.mt Ov.g Ov.larch Ov.r ∧
+    "x".toList ∈ Ov.lA.2 ∧ "x".toList ∈ Ov.lB.2 ∧ Ov.lA.1 ≠ Ov.lB.1 :=
+  ⟨by decide, by decide, by decide, by decide, by rfl, by rfl, ⟨_, rfl⟩, by decide, by decide, by decide, by decide,
+    by decide⟩
+set_option maxRecDepth 8000 in
+example : assertAppliesLayer Ov.mt (compileLayerRule Ov.larch Ov.r) Ov.g = .err .layerMismatch := by decide
+/-- hypotheses of `overlapping_layers_never_verdict` on the same rule object -/
+example : Ov.lA ∈ stateLayerMap Ov.mt Ov.g Ov.larch (mkRule false false true true false [.name "x".toList] [.regex "x|y".toList]) ∧
+    Ov.lB ∈ stateLayerMap Ov.mt Ov.g Ov.larch (mkRule false false true true false [.name "x".toList] [.regex "x|y".toList]) := by
+  decide
 
 end Pta.C05
